@@ -31,6 +31,9 @@ pub enum DK {
   FunctionExprConst,
   Namespace,
   DeclareFunction,
+  /// untyped constant whose initialiser is a leavable composite (array /
+  /// object / template / conditional of literals and identifiers)
+  CompositeConst,
 }
 
 impl DK {
@@ -50,7 +53,7 @@ impl DK {
       DK::Interface => "interface",
       DK::TypeAlias => "type",
       DK::Enum | DK::ConstEnum => "enum",
-      DK::TypedConst | DK::LiteralConst | DK::ArrowConst | DK::FunctionExprConst => "const",
+      DK::TypedConst | DK::LiteralConst | DK::ArrowConst | DK::FunctionExprConst | DK::CompositeConst => "const",
       DK::Namespace => "namespace",
     }
   }
@@ -64,6 +67,17 @@ pub enum Dirty {
   DestructuredParam,
   UntypedClassProp,
   MissingMethodReturn,
+  /// untyped parameter in a body-less signature
+  OverloadUntypedParam,
+  AbstractMethodUntypedParam,
+  MethodOverloadUntypedParam,
+  UntypedRestParam,
+  /// non-leavable expression nested inside an otherwise leavable initialiser
+  CallInArray,
+  CallInObject,
+  CallInTemplateFirstSlot,
+  CallInConditional,
+  NewInArray,
 }
 
 #[derive(Clone, Debug, PartialEq, Eq, Hash)]
@@ -76,6 +90,8 @@ pub struct Decl {
   pub sig_refs: Vec<(usize, usize)>,
   /// referenced only from implementation code (bodies, private members)
   pub body_refs: Vec<(usize, usize)>,
+  /// files whose whole namespace object the signature names (`typeof ns`)
+  pub ns_refs: Vec<usize>,
   pub dirty: Option<Dirty>,
   /// small variation selector for rendering
   pub variant: u32,
@@ -99,6 +115,8 @@ pub struct PFile {
   /// how other files' declarations are imported: file index -> style
   /// 0 named, 1 namespace import, 2 import type, 3 inline import("…") types
   pub import_style: BTreeMap<usize, u8>,
+  /// import names through a file that star re-exports them, when one exists
+  pub via_reexport: bool,
 }
 
 #[derive(Clone, Debug, PartialEq, Eq, Hash)]
@@ -136,6 +154,7 @@ pub fn gen_pkg(rng: &mut Rng, name: &str, n_files: usize, dirty: bool) -> Pkg {
     DK::FunctionExprConst,
     DK::Namespace,
     DK::DeclareFunction,
+    DK::CompositeConst,
   ];
   let mut files: Vec<PFile> = vec![];
   let mut counter = 0;
@@ -161,7 +180,7 @@ pub fn gen_pkg(rng: &mut Rng, name: &str, n_files: usize, dirty: bool) -> Pkg {
             DK::Interface => "Ifc",
             DK::TypeAlias => "Ty",
             DK::Enum | DK::ConstEnum => "En",
-            DK::TypedConst | DK::LiteralConst => "val",
+            DK::TypedConst | DK::LiteralConst | DK::CompositeConst => "val",
             DK::ArrowConst | DK::FunctionExprConst => "fun",
             DK::Namespace => "Ns",
           },
@@ -172,6 +191,7 @@ pub fn gen_pkg(rng: &mut Rng, name: &str, n_files: usize, dirty: bool) -> Pkg {
         default_export: false,
         sig_refs: vec![],
         body_refs: vec![],
+        ns_refs: vec![],
         dirty: None,
         variant: rng.next() as u32,
       });
@@ -181,6 +201,7 @@ pub fn gen_pkg(rng: &mut Rng, name: &str, n_files: usize, dirty: bool) -> Pkg {
       decls,
       reexports: vec![],
       import_style: BTreeMap::new(),
+      via_reexport: rng.coin(),
     });
   }
   // at most one default export per file
@@ -215,8 +236,18 @@ pub fn gen_pkg(rng: &mut Rng, name: &str, n_files: usize, dirty: bool) -> Pkg {
         if tf == fi && td == di {
           continue;
         }
-        // a cross-file reference needs an importable target: exported by name
-        if tf != fi && !(files[tf].decls[td].exported) {
+        // a cross-file reference needs an importable target: exported by
+        // name, or the default export (imported as `import D from`)
+        if tf != fi && !(files[tf].decls[td].exported || files[tf].decls[td].default_export) {
+          continue;
+        }
+        // a composite constant only references values
+        if files[fi].decls[di].kind == DK::CompositeConst
+          && !matches!(
+            files[tf].decls[td].kind,
+            DK::Function | DK::TypedConst | DK::LiteralConst | DK::ArrowConst | DK::FunctionExprConst | DK::Enum | DK::Class
+          )
+        {
           continue;
         }
         // literal consts and enums have no references of their own
@@ -233,17 +264,26 @@ pub fn gen_pkg(rng: &mut Rng, name: &str, n_files: usize, dirty: bool) -> Pkg {
     for tf in fi + 1..n {
       files[fi].import_style.insert(tf, rng.below(4) as u8);
     }
+    // whole-namespace references
+    if fi + 1 < n {
+      for di in 0..files[fi].decls.len() {
+        if matches!(files[fi].decls[di].kind, DK::Interface | DK::TypeAlias | DK::DeclareFunction) && rng.chance(1, 6) {
+          let tf = rng.range(fi + 1, n - 1);
+          files[fi].decls[di].ns_refs.push(tf);
+        }
+      }
+    }
   }
   // re-exports (again only towards higher-indexed files)
   for fi in 0..n {
     for tf in fi + 1..n {
-      match rng.below(7) {
-        0 => files[fi].reexports.push(ReExport::Star { from: tf }),
-        1 => files[fi].reexports.push(ReExport::StarAs {
+      match rng.below(8) {
+        0 | 1 => files[fi].reexports.push(ReExport::Star { from: tf }),
+        2 => files[fi].reexports.push(ReExport::StarAs {
           from: tf,
           ns: format!("ns{}_{}", fi, tf),
         }),
-        2 => {
+        3 => {
           let cands: Vec<String> = files[tf]
             .decls
             .iter()
@@ -283,7 +323,7 @@ pub fn gen_pkg(rng: &mut Rng, name: &str, n_files: usize, dirty: bool) -> Pkg {
       .filter(|(f, d)| {
         matches!(
           pkg.files[*f].decls[*d].kind,
-          DK::Function | DK::Class | DK::TypedConst | DK::ArrowConst
+          DK::Function | DK::Class | DK::TypedConst | DK::ArrowConst | DK::OverloadedFunction | DK::AbstractClass | DK::CompositeConst
         )
       })
       .collect();
@@ -291,9 +331,18 @@ pub fn gen_pkg(rng: &mut Rng, name: &str, n_files: usize, dirty: bool) -> Pkg {
       let (f, d) = *rng.pick(&cands);
       let k = pkg.files[f].decls[d].kind;
       pkg.files[f].decls[d].dirty = Some(match k {
-        DK::Function => *rng.pick(&[Dirty::MissingReturnType, Dirty::UntypedParam, Dirty::DestructuredParam]),
-        DK::Class => *rng.pick(&[Dirty::UntypedClassProp, Dirty::MissingMethodReturn]),
+        DK::Function => *rng.pick(&[Dirty::MissingReturnType, Dirty::UntypedParam, Dirty::DestructuredParam, Dirty::UntypedRestParam]),
+        DK::Class => *rng.pick(&[Dirty::UntypedClassProp, Dirty::MissingMethodReturn, Dirty::MethodOverloadUntypedParam]),
+        DK::AbstractClass => *rng.pick(&[Dirty::AbstractMethodUntypedParam, Dirty::MethodOverloadUntypedParam, Dirty::MissingMethodReturn]),
+        DK::OverloadedFunction => Dirty::OverloadUntypedParam,
         DK::TypedConst => Dirty::UntypedConstCall,
+        DK::CompositeConst => *rng.pick(&[
+          Dirty::CallInArray,
+          Dirty::CallInObject,
+          Dirty::CallInTemplateFirstSlot,
+          Dirty::CallInConditional,
+          Dirty::NewInArray,
+        ]),
         _ => Dirty::MissingReturnType,
       });
     }
@@ -350,59 +399,92 @@ pub fn public_set(p: &Pkg) -> BTreeSet<(usize, usize)> {
 /// `ns_includes_default = false` models an implementation that forgets that
 /// `export * as ns from "./x"` makes x's default export reachable as ns.default
 pub fn public_set_opt(p: &Pkg, ns_includes_default: bool) -> BTreeSet<(usize, usize)> {
-  let mut public: BTreeSet<(usize, usize)> = BTreeSet::new();
-  let mut work: Vec<(usize, usize)> = vec![];
-  // (file, whether its default export is part of the API): `export *` does
-  // not re-export `default`, `export * as ns` does (as ns.default)
-  let mut files_exported: BTreeSet<(usize, bool)> = BTreeSet::new();
+  let used = used_sig_refs(p);
   // declarations that are exports of the package API themselves (as opposed
-  // to being pulled in by a reference)
+  // to being pulled in by a reference); computed to a fixpoint because a
+  // `typeof ns` reference can turn a whole file into API late
   let mut api_exported: BTreeSet<(usize, usize)> = BTreeSet::new();
-  let mut fwork: Vec<(usize, bool)> = p.exports.iter().map(|(_, f)| (*f, true)).collect();
-  while let Some((f, with_default)) = fwork.pop() {
-    if !files_exported.insert((f, with_default)) {
-      continue;
-    }
-    for (di, d) in p.files[f].decls.iter().enumerate() {
-      if d.exported || (d.default_export && with_default) {
-        work.push((f, di));
-        api_exported.insert((f, di));
-      }
-    }
-    for r in &p.files[f].reexports {
-      match r {
-        ReExport::Star { from } => fwork.push((*from, false)),
-        ReExport::StarAs { from, .. } => fwork.push((*from, ns_includes_default)),
-        ReExport::Named { from, name, .. } => {
-          if let Some(di) = p.files[*from].decls.iter().position(|d| &d.name == name) {
-            work.push((*from, di));
-            api_exported.insert((*from, di));
+  loop {
+    let before = api_exported.clone();
+    let mut public: BTreeSet<(usize, usize)> = BTreeSet::new();
+    let mut work: Vec<(usize, usize)> = vec![];
+    // (file, whether its default export is part of the API): `export *` does
+    // not re-export `default`, `export * as ns` / `typeof ns` do (ns.default)
+    let mut files_exported: BTreeSet<(usize, bool)> = BTreeSet::new();
+    let mut fwork: Vec<(usize, bool)> = p.exports.iter().map(|(_, f)| (*f, true)).collect();
+    loop {
+      if let Some((f, with_default)) = fwork.pop() {
+        if !files_exported.insert((f, with_default)) {
+          continue;
+        }
+        for (di, d) in p.files[f].decls.iter().enumerate() {
+          if d.exported || (d.default_export && with_default) {
+            work.push((f, di));
+            api_exported.insert((f, di));
           }
+        }
+        for r in &p.files[f].reexports {
+          match r {
+            ReExport::Star { from } => fwork.push((*from, false)),
+            ReExport::StarAs { from, .. } => fwork.push((*from, ns_includes_default)),
+            ReExport::Named { from, name, .. } => {
+              if let Some(di) = p.files[*from].decls.iter().position(|d| &d.name == name) {
+                work.push((*from, di));
+                api_exported.insert((*from, di));
+              }
+            }
+          }
+        }
+        continue;
+      }
+      let Some((f, d)) = work.pop() else { break };
+      if !public.insert((f, d)) {
+        continue;
+      }
+      let decl = &p.files[f].decls[d];
+      if decl.kind == DK::Namespace && !before.contains(&(f, d)) {
+        // a private namespace is only ever referenced as `Ns.Inner`: fast check
+        // keeps just that member, whose type is the first signature reference
+        if let Some(r) = decl.sig_refs.first() {
+          work.push(*r);
+        }
+        continue;
+      }
+      if let Some(rs) = used.get(&(f, d)) {
+        for r in rs {
+          work.push(*r);
+        }
+      }
+      if renders_ns_refs(decl.kind) {
+        for tf in &decl.ns_refs {
+          fwork.push((*tf, true));
         }
       }
     }
-  }
-  let used = used_sig_refs(p);
-  while let Some((f, d)) = work.pop() {
-    if !public.insert((f, d)) {
-      continue;
-    }
-    let decl = &p.files[f].decls[d];
-    if decl.kind == DK::Namespace && !api_exported.contains(&(f, d)) {
-      // a private namespace is only ever referenced as `Ns.Inner`: fast check
-      // keeps just that member, whose type is the first signature reference
-      if let Some(r) = decl.sig_refs.first() {
-        work.push(*r);
-      }
-      continue;
-    }
-    if let Some(rs) = used.get(&(f, d)) {
-      for r in rs {
-        work.push(*r);
-      }
+    if api_exported == before {
+      return public;
     }
   }
-  public
+}
+
+pub fn renders_ns_refs(k: DK) -> bool {
+  matches!(k, DK::Interface | DK::TypeAlias | DK::DeclareFunction)
+}
+
+/// files reachable from `g` through `export *` statements
+pub fn star_reach(p: &Pkg, g: usize) -> BTreeSet<usize> {
+  let mut out = BTreeSet::new();
+  let mut work = vec![g];
+  while let Some(x) = work.pop() {
+    for r in &p.files[x].reexports {
+      if let ReExport::Star { from } = r
+        && out.insert(*from)
+      {
+        work.push(*from);
+      }
+    }
+  }
+  out
 }
 
 // ------------------------------------------------------------ rendering
@@ -439,24 +521,43 @@ impl Ctx<'_> {
     }
   }
 
+  /// the file a named import of (tf, name) is written against: tf itself,
+  /// or a file that star re-exports it
+  fn import_source(&self, tf: usize) -> usize {
+    if self.p.files[self.f].via_reexport {
+      for g in self.f + 1..self.p.files.len() {
+        if g != tf && star_reach(self.p, g).contains(&tf) {
+          return g;
+        }
+      }
+    }
+    tf
+  }
+
   fn name_of(&self, (tf, td): (usize, usize), type_pos: bool, imports: &mut BTreeSet<String>) -> String {
     let d = &self.p.files[tf].decls[td];
     if tf == self.f {
       return d.name.clone();
     }
+    if d.default_export && !d.exported {
+      let rel = rel_path(&self.p.files[self.f].path, &self.p.files[tf].path);
+      imports.insert(format!("import D{} from \"{}\";", tf, rel));
+      return format!("D{}", tf);
+    }
     let rel = rel_path(&self.p.files[self.f].path, &self.p.files[tf].path);
+    let via = rel_path(&self.p.files[self.f].path, &self.p.files[self.import_source(tf)].path);
     match self.p.files[self.f].import_style.get(&tf).copied().unwrap_or(0) {
       1 => {
         imports.insert(format!("import * as f{} from \"{}\";", tf, rel));
         format!("f{}.{}", tf, d.name)
       }
-      2 if type_pos && !matches!(d.kind, DK::Function | DK::OverloadedFunction | DK::TypedConst | DK::LiteralConst | DK::ArrowConst | DK::FunctionExprConst | DK::DeclareFunction | DK::Namespace) => {
-        imports.insert(format!("import type {{ {} }} from \"{}\";", d.name, rel));
+      2 if type_pos && !matches!(d.kind, DK::Function | DK::OverloadedFunction | DK::TypedConst | DK::LiteralConst | DK::ArrowConst | DK::FunctionExprConst | DK::DeclareFunction | DK::Namespace | DK::CompositeConst) => {
+        imports.insert(format!("import type {{ {} }} from \"{}\";", d.name, via));
         d.name.clone()
       }
-      3 if type_pos && d.kind.is_type_namespace() => format!("import(\"{}\").{}", rel, d.name),
+      3 if type_pos && d.kind.is_type_namespace() => format!("import(\"{}\").{}", via, d.name),
       _ => {
-        imports.insert(format!("import {{ {} }} from \"{}\";", d.name, rel));
+        imports.insert(format!("import {{ {} }} from \"{}\";", d.name, via));
         d.name.clone()
       }
     }
@@ -509,6 +610,22 @@ pub fn render_file(p: &Pkg, f: usize) -> String {
         format!("{}[]", x)
       }
     };
+    // `typeof <namespace import>` of whole files
+    let ns_types: Vec<String> = if renders_ns_refs(d.kind) {
+      d.ns_refs
+        .iter()
+        .map(|tf| {
+          imports.borrow_mut().insert(format!(
+            "import * as w{} from \"{}\";",
+            tf,
+            rel_path(&file.path, &p.files[*tf].path)
+          ));
+          format!("typeof w{}", tf)
+        })
+        .collect()
+    } else {
+      vec![]
+    };
     let body_use: String = d
       .body_refs
       .iter()
@@ -547,13 +664,14 @@ pub fn render_file(p: &Pkg, f: usize) -> String {
           _ => format!("a: {}", t(1)),
         };
         let p2 = match v % 4 {
+          _ if d.dirty == Some(Dirty::UntypedRestParam) => ", ...rest".to_string(),
           0 => format!(", b?: {}", t(2)),
           1 => format!(", b: {} = undefined as any", t(2)),
           2 => format!(", ...rest: {}", arr(2)),
           _ => String::new(),
         };
         body.push_str(&format!(
-          "{}{}function {}{}({}{}){} {{\n{}  return compute({}) as any;\n}}\n",
+          "{}{}function {}{}({}{}){} {{\n{}  return compute({}){};\n}}\n",
           ex,
           if is_async { "async " } else { "" },
           d.name,
@@ -562,11 +680,17 @@ pub fn render_file(p: &Pkg, f: usize) -> String {
           p2,
           ret,
           body_use,
-          (v % 9)
+          (v % 9),
+          // `return <expr> as T` is inferable, a bare call is not
+          if d.dirty == Some(Dirty::MissingReturnType) { "" } else { " as any" }
         ));
       }
       DK::OverloadedFunction => {
-        body.push_str(&format!("{}function {}(a: {}): {};\n", ex, d.name, t(0), t(1)));
+        if d.dirty == Some(Dirty::OverloadUntypedParam) {
+          body.push_str(&format!("{}function {}(a): {};\n", ex, d.name, t(1)));
+        } else {
+          body.push_str(&format!("{}function {}(a: {}): {};\n", ex, d.name, t(0), t(1)));
+        }
         body.push_str(&format!("{}function {}(a: {}, b: {}): {};\n", ex, d.name, t(0), t(2), t(1)));
         body.push_str(&format!(
           "{}function {}(a: any, b?: any): any {{\n{}  return [a, b];\n}}\n",
@@ -574,7 +698,8 @@ pub fn render_file(p: &Pkg, f: usize) -> String {
         ));
       }
       DK::DeclareFunction => {
-        body.push_str(&format!("{}declare function {}(a: {}): {};\n", ex, d.name, t(0), t(1)));
+        let extra: String = ns_types.iter().enumerate().map(|(i, n)| format!(", w{}: {}", i, n)).collect();
+        body.push_str(&format!("{}declare function {}(a: {}{}): {};\n", ex, d.name, t(0), extra, t(1)));
       }
       DK::Class | DK::AbstractClass => {
         let abs = if d.kind == DK::AbstractClass { "abstract " } else { "" };
@@ -613,7 +738,7 @@ pub fn render_file(p: &Pkg, f: usize) -> String {
         s.push_str("  #reallyHidden = 1;\n");
         if v % 2 == 0 {
           s.push_str(&format!(
-            "  constructor(public param: {}, private other: number = 1, third?: {}) {{\n    {}\n{}  }}\n",
+            "  constructor(public param: {}, private other: number = 1, third?: {}, public level: number | string = 1, readonly tag: \"a\" | \"b\" = \"a\") {{\n    {}\n{}  }}\n",
             t(2),
             t(0),
             if parent.is_some() { "super(undefined as any, 1);" } else { "" },
@@ -627,10 +752,18 @@ pub fn render_file(p: &Pkg, f: usize) -> String {
           _ => format!(": {}", t(1)),
         };
         s.push_str(&format!(
-          "  method(arg: {}, opt?: string){} {{\n    return compute(this.#reallyHidden) as any;\n  }}\n",
+          "  method(arg: {}, opt?: string){} {{\n    return compute(this.#reallyHidden){};\n  }}\n",
           t(0),
-          mret
+          mret,
+          if d.dirty == Some(Dirty::MissingMethodReturn) { "" } else { " as any" }
         ));
+        if d.dirty == Some(Dirty::MethodOverloadUntypedParam) {
+          s.push_str(&format!("  over(a): {};\n", t(1)));
+        } else {
+          s.push_str(&format!("  over(a: {}): {};\n", t(0), t(1)));
+        }
+        s.push_str(&format!("  over(a: {}, b: number): {};\n", t(0), t(1)));
+        s.push_str("  over(a: any, b?: any): any {\n    return a;\n  }\n");
         s.push_str(&format!("  get prop(): {} {{\n    return undefined as any;\n  }}\n", t(2)));
         s.push_str(&format!("  set prop(value: {}) {{\n    this.hidden.clear();\n  }}\n", t(2)));
         s.push_str(&format!("  static create<U>(input: U): {} | U {{\n    return input;\n  }}\n", t(0)));
@@ -639,7 +772,11 @@ pub fn render_file(p: &Pkg, f: usize) -> String {
           s.push_str("  [Symbol.dispose](): void {\n    this.hidden.clear();\n  }\n");
         }
         if d.kind == DK::AbstractClass {
-          s.push_str(&format!("  abstract todo(a: {}): void;\n", t(1)));
+          if d.dirty == Some(Dirty::AbstractMethodUntypedParam) {
+            s.push_str("  abstract todo(a): void;\n");
+          } else {
+            s.push_str(&format!("  abstract todo(a: {}): void;\n", t(1)));
+          }
         }
         s.push_str("}\n");
         body.push_str(&s);
@@ -655,7 +792,7 @@ pub fn render_file(p: &Pkg, f: usize) -> String {
           cx.name_of(r, true, &mut imports.borrow_mut())
         });
         body.push_str(&format!(
-          "{}interface {}{}{} {{\n  a: {};\n  readonly b?: {};\n  m(x: {}): {};\n  [key: string]: unknown;\n}}\n",
+          "{}interface {}{}{} {{\n  a: {};\n  readonly b?: {};\n  m(x: {}): {};\n{}  [key: string]: unknown;\n}}\n",
           ex,
           d.name,
           if v % 3 == 0 { "<T = string>" } else { "" },
@@ -664,14 +801,16 @@ pub fn render_file(p: &Pkg, f: usize) -> String {
           t(1),
           t(2),
           t(0),
+          ns_types.iter().enumerate().map(|(i, n)| format!("  w{}: {};\n", i, n)).collect::<String>(),
         ));
       }
       DK::TypeAlias => {
         body.push_str(&format!(
-          "{}type {}{} = {} | {} | {{ x: {}; y?: readonly {}[] }} | ((arg: {}) => {}) | Map<string, {}> | `pre-${{string}}` | {}null;\n",
+          "{}type {}{} = {}{} | {} | {{ x: {}; y?: readonly {}[] }} | ((arg: {}) => {}) | Map<string, {}> | `pre-${{string}}` | {}null;\n",
           ex,
           d.name,
           if v % 3 == 0 { "<T = number>" } else { "" },
+          ns_types.iter().map(|n| format!("{} | ", n)).collect::<String>(),
           t(0),
           arr(1),
           t(2),
@@ -728,12 +867,13 @@ pub fn render_file(p: &Pkg, f: usize) -> String {
           _ => format!(": {}", t(1)),
         };
         body.push_str(&format!(
-          "{}const {} = (a: {}, b: number = 2){} => {{\n{}  return compute(b) as any;\n}};\n",
+          "{}const {} = (a: {}, b: number = 2){} => {{\n{}  return compute(b){};\n}};\n",
           ex,
           d.name,
           t(0),
           ret,
-          body_use
+          body_use,
+          if d.dirty == Some(Dirty::MissingReturnType) { "" } else { " as any" }
         ));
       }
       DK::FunctionExprConst => {
@@ -745,6 +885,35 @@ pub fn render_file(p: &Pkg, f: usize) -> String {
           t(1),
           body_use
         ));
+      }
+      DK::CompositeConst => {
+        // value references are written into the (leavable, hence kept)
+        // initialiser
+        let vref = |i: usize| -> String {
+          if n_refs == 0 {
+            return format!("{}", i + 1);
+          }
+          let r = d.sig_refs[i % n_refs];
+          mark(r);
+          let target = &p.files[r.0].decls[r.1];
+          let n = cx.name_of(r, false, &mut imports.borrow_mut());
+          if target.kind == DK::Enum { format!("{}.A", n) } else { n }
+        };
+        let init = match d.dirty {
+          Some(Dirty::CallInArray) => "[1, compute(1)]".to_string(),
+          Some(Dirty::CallInObject) => "{ a: 1, b: compute(1) }".to_string(),
+          Some(Dirty::CallInTemplateFirstSlot) => "[`${compute(1)} of ${10}`]".to_string(),
+          Some(Dirty::CallInConditional) => "true ? compute(1) : 2".to_string(),
+          Some(Dirty::NewInArray) => "[new Map()]".to_string(),
+          _ => match v % 5 {
+            0 => format!("[{}, \"x\", {}]", vref(0), vref(1)),
+            1 => format!("{{ a: {}, \"b\": [{}], 3: -1, nested: {{ c: null }} }}", vref(0), vref(1)),
+            2 => format!("[`${{{}}} of ${{10}}`, {}] as const", vref(0), vref(1)),
+            3 => format!("true ? {} : {}", vref(0), vref(1)),
+            _ => format!("{{ f: (a: number): string => compute(a) as any, g: {} }}", vref(0)),
+          },
+        };
+        body.push_str(&format!("{}const {} = {};\n", ex, d.name, init));
       }
       DK::Namespace => {
         body.push_str(&format!(
@@ -821,4 +990,41 @@ pub fn pkg_json(p: &Pkg) -> Value {
     "files": (0..p.files.len()).map(|f| json!({"path": p.files[f].path, "source": render_file(p, f)})).collect::<Vec<_>>(),
     "dirty": p.files.iter().flat_map(|f| f.decls.iter().filter_map(|d| d.dirty.map(|x| format!("{} {:?}", d.name, x)))).collect::<Vec<_>>(),
   })
+}
+
+/// how often the rendered package uses the rarer reference forms
+pub fn feature_counts(p: &Pkg) -> BTreeMap<&'static str, u64> {
+  let mut out: BTreeMap<&'static str, u64> = BTreeMap::new();
+  let used = used_sig_refs(p);
+  for ((f, _), refs) in &used {
+    let cx = Ctx { p, f: *f };
+    for (tf, td) in refs {
+      if tf == f {
+        continue;
+      }
+      let d = &p.files[*tf].decls[*td];
+      if d.default_export && !d.exported {
+        *out.entry("feature:default-import").or_default() += 1;
+      } else if p.files[*f].import_style.get(tf).copied().unwrap_or(0) != 1 && cx.import_source(*tf) != *tf {
+        *out.entry("feature:import-through-star-re-export").or_default() += 1;
+        let g = cx.import_source(*tf);
+        // more than one `export *` hop
+        if !p.files[g].reexports.iter().any(|r| matches!(r, ReExport::Star { from } if from == tf)) {
+          *out.entry("feature:import-through-two-star-hops").or_default() += 1;
+        }
+      }
+    }
+  }
+  for f in &p.files {
+    for d in &f.decls {
+      if renders_ns_refs(d.kind) && !d.ns_refs.is_empty() {
+        *out.entry("feature:typeof-namespace-import").or_default() += 1;
+      }
+      if let Some(x) = d.dirty {
+        let _ = x;
+        *out.entry("feature:dirty-declaration").or_default() += 1;
+      }
+    }
+  }
+  out
 }
